@@ -5,6 +5,7 @@ template table, only on Gen/Tables.lean, so they are not re-elaborated when a pa
 import PartituraModel.Model.MatchCodec
 import PartituraModel.Proofs.C07Codec
 import PartituraModel.Proofs.C07Frac
+import PartituraModel.Proofs.C07Float
 
 namespace C07
 open Model Model.Template Model.MatchCodec
@@ -79,14 +80,48 @@ theorem key_pairs_v030 : ∀ a ∈ allKeys, ∀ b ∈ allKeys,
 
 -- ---------------------------------------------------------------- floats (text level), durations as text, versions
 
-/-- fixed-point text: the numeral written for `n / 10^k` with `k ≥ 1` decimals (`'%.kf'`, e.g. the
-    four-decimal beat times of 1.0.0) is read back as exactly `n / 10^k`, with either sign.
-    (`_partial`: the binary64 rounding step between the float and its decimal numeral is part of the
-    model - `toBinary64`, `roundHalfEven` - and is compared with the implementation, not proved.) -/
-theorem fixed_decimal_roundtrip_partial (k : Nat) (neg : Bool) (n : Nat) (hk : 1 ≤ k) :
-    decode .float (printFixed k neg n)
-      = .ok (.dec (if neg then -((n : Rat) / (pow10 k : Rat)) else (n : Rat) / (pow10 k : Rat))) := by
-  simp only [decode, C07Codec.parseDecimal_printFixed k neg n hk, liftO, Except.map]
+/-- the sign-and-digits value of a decimal numeral -/
+def fixedVal (k : Nat) (neg : Bool) (n : Nat) : Rat :=
+  if neg then -((n : Rat) / (pow10 k : Rat)) else (n : Rat) / (pow10 k : Rat)
+
+/-- fixed-point text: the numeral written for `n / 10^k` with `k ≥ 1` decimals is read back as exactly
+    `n / 10^k`, with either sign -/
+theorem fixed_numeral_read (k : Nat) (neg : Bool) (n : Nat) (hk : 1 ≤ k) :
+    decode .float (printFixed k neg n) = .ok (.dec (fixedVal k neg n)) := by
+  simp only [decode, C07Codec.parseDecimal_printFixed k neg n hk, liftO, Except.map, fixedVal]
+
+/-- **four-decimal beat times keep their value** (and the five- and two-decimal times of versions < 0.3.0):
+    a float that is the k-decimal number `±n / 10^k` (`k ≥ 1`, fewer than 2^52 units in the last place) is
+    written by `'%.kf'` as its own numeral and read back as the same number - the binary64 value nearest to
+    it lies within relative error 2^-53 (`toBinary64` is a correct rounding: `C07Float.tbPos_close`), so
+    correct rounding to k decimals returns `n` -/
+theorem fixed_decimal_roundtrip (k : Nat) (neg : Bool) (n : Nat) (hk : 1 ≤ k) (hb : n < 2 ^ 52)
+    (hz : neg = true → 0 < n) :
+    encFix k (fixedVal k neg n) = printFixed k neg n ∧
+      decode .float (encFix k (fixedVal k neg n)) = .ok (.dec (fixedVal k neg n)) := by
+  have h := C07Float.encFix_fixed k n neg hb hz
+  unfold fixedVal
+  exact ⟨h, by rw [h]; exact fixed_numeral_read k neg n hk⟩
+
+/-- the sign and the units in the last place `'%.kf'` prints for an arbitrary float -/
+def fixNeg (q : Rat) : Bool := decide (toBinary64 q < 0)
+def fixUnits (k : Nat) (q : Rat) : Nat :=
+  (roundHalfEven ((if toBinary64 q < 0 then -toBinary64 q else toBinary64 q) * (pow10 k : Rat))).toNat
+
+/-- **formatting of floats is a fixpoint after one round**: ANY float `q` (not necessarily representable with
+    k decimals) is written as some numeral; the number read back from it is written as the identical text -/
+theorem fixed_decimal_fixpoint (k : Nat) (q : Rat) (hk : 1 ≤ k) (hb : fixUnits k q < 2 ^ 52)
+    (hz : fixNeg q = true → 0 < fixUnits k q) :
+    ∃ q', decode .float (encFix k q) = .ok (.dec q') ∧ encFix k q' = encFix k q := by
+  have he : encFix k q = printFixed k (fixNeg q) (fixUnits k q) := rfl
+  refine ⟨fixedVal k (fixNeg q) (fixUnits k q), ?_, ?_⟩
+  · rw [he]; exact fixed_numeral_read k _ _ hk
+  · rw [he]; exact (fixed_decimal_roundtrip k _ _ hk hb hz).1
+
+/-- floats written in full (`repr`: pre-1.0 beat times, seconds): the decimal the model carries is written
+    and read back exactly, whenever it is written at all (positional range, terminating decimal) -/
+theorem repr_roundtrip (q : Rat) (text : Str) (h : encRepr q = some text) : decode .float text = .ok (.dec q) := by
+  simp only [decode, C07Float.encRepr_parse q text h, liftO, Except.map]
 
 example : printFixed 4 true 12345 = "-1.2345".toList ∧ encFix 4 (1 / 32) = "0.0312".toList ∧
     encFix 4 (3 / 32) = "0.0938".toList ∧ encFix 4 (5 / 100000) = "0.0001".toList ∧
@@ -198,22 +233,17 @@ example : encTsigList ⟨2, 4, [⟨3, 4, none, none⟩]⟩ = "[2/4,3/4]".toList 
 
 -- ---------------------------------------------------------------- every codec of the field tables
 
-/-- the sign-and-digits reading of a decimal numeral -/
-def fixedVal (k : Nat) (neg : Bool) (n : Nat) : Rat :=
-  if neg then -((n : Rat) / (pow10 k : Rat)) else (n : Rat) / (pow10 k : Rat)
-
 /-- **admissible values of a codec** (formatter, interpreter): the values its format version allows.
-    Floats: the number IS the k-decimal numeral its formatter prints (`'%.kf'`: "four-decimal beat times";
-    `repr`: the shortest decimal) - the binary64 rounding inside the formatter is part of the model, so the
-    condition is stated on the model's output.  Keys: the 30 keys, and the 900 double keys in the spellings
+    Floats: `'%.kf'` fields hold a k-decimal number `±n / 10^k` with `n < 2^52` ("four-decimal beat times");
+    `repr` fields hold any decimal `repr` writes positionally.  Keys: the 30 keys, and the 900 double keys in the spellings
     that have them.  The three pitch fields are not self-inverse codecs (`pitch_ok`, Props/C07Lines.lean). -/
 def Adm : Enc → Dec → Val → Prop
   | .int, .int, .int _ => True
   | .strip, .str, .str s => strip s = s
   | .raw, .str, .str _ => True
   | .quoted, .strOld, .str s => strip s = s ∧ s ≠ []
-  | .fix k, .float, .dec q => ∃ neg n, 1 ≤ k ∧ encFix k q = printFixed k neg n ∧ q = fixedVal k neg n
-  | .repr, .float, .dec q => ∃ k neg n, 1 ≤ k ∧ encRepr q = some (printFixed k neg n) ∧ q = fixedVal k neg n
+  | .fix k, .float, .dec q => ∃ neg n, 1 ≤ k ∧ n < 2 ^ 52 ∧ (neg = true → 0 < n) ∧ q = fixedVal k neg n
+  | .repr, .float, .dec q => (encRepr q).isSome = true
   | .frac, .frac, .frac f => C07Codec.FracWF f
   | .fracRational, .frac, .frac f => C07Codec.FracWF f ∧ (f.den = 1 ∧ f.tdiv = none → f.add = none)
   | .list, .list, .strs l => C07Codec.Words l ∧ l ≠ [[]]
@@ -262,15 +292,13 @@ theorem codec_roundtrip (e : Enc) (d : Dec) (v : Val) (h : Adm e d v) :
   · exact ⟨_, rfl, rfl⟩
   · exact ⟨_, rfl, quoted_roundtrip _ h.1 h.2⟩
   · rename_i k q
-    obtain ⟨neg, n, hk, he, hq⟩ := h
-    refine ⟨encFix k q, rfl, ?_⟩
-    rw [he, fixed_decimal_roundtrip_partial k neg n hk, hq]
-    rfl
+    obtain ⟨neg, n, hk, hb, hz, hq⟩ := h
+    subst hq
+    exact ⟨_, rfl, (fixed_decimal_roundtrip k neg n hk hb hz).2⟩
   · rename_i q
-    obtain ⟨k, neg, n, hk, he, hq⟩ := h
-    refine ⟨printFixed k neg n, by simp only [encode, he], ?_⟩
-    rw [fixed_decimal_roundtrip_partial k neg n hk, hq]
-    rfl
+    cases he : encRepr q with
+    | none => rw [he] at h; simp at h
+    | some text => exact ⟨text, by simp only [encode, he], repr_roundtrip q text he⟩
   · rename_i f
     exact ⟨f.toStr, rfl, by simp only [decode, frac_string_roundtrip f h, Except.map]⟩
   · rename_i f
@@ -310,8 +338,12 @@ theorem codec_roundtrip (e : Enc) (d : Dec) (v : Val) (h : Adm e d v) :
   · exact absurd h id
 
 -- non-vacuity: admissible values exist for the float codecs (model output evaluated), durations and keys
-example : Adm (.fix 4) .float (.dec (5 / 4)) := ⟨false, 12500, by decide, by decide +kernel, by decide +kernel⟩
-example : Adm .repr .float (.dec (-5 / 4)) := ⟨2, true, 125, by decide, by decide +kernel, by decide +kernel⟩
+example : Adm (.fix 4) .float (.dec (5 / 4)) := ⟨false, 12500, by decide, by decide, by decide, by decide +kernel⟩
+example : Adm .repr .float (.dec (-5 / 4)) := by
+  show (encRepr (-5 / 4)).isSome = true
+  decide +kernel
+-- one formatting round for a float that is not a four-decimal number: 1/32 -> "0.0312" -> 0.0312 -> "0.0312"
+example : encFix 4 (1 / 32) = "0.0312".toList ∧ fixUnits 4 (1 / 32) = 312 ∧ fixNeg (1 / 32) = false := by decide +kernel
 example : Adm (.key .v030list) .key (.key (key1 (-3, .minor))) :=
   Or.inl ⟨by decide, (-3, .minor), by decide +kernel, rfl⟩
 
